@@ -18,9 +18,17 @@ AllSits == {s \in Raw : /\ ~(s.input \in {"missing", "directory"} /\ s.channel \
            \* input that is not UTF-8, CRLF line ends, a report definition the library refuses by calling sys.exit
            \cup {S(i, c, f, o) : i \in {"undecodable", "crlf", "partial"}, c \in {"path", "dash", "stdin"}, f \in {"json", "csv"}, o \in {"none", "both"}}
            \cup {SO(i, "path", "json", "none", w) : i \in {"undecodable"}, w \in {"newfile", "brokenpipe"}}
+           \* a project file whose NAME is not valid UTF-8 (legal on Linux): same contract as any readable file;
+           \* diagnostics that cannot be written (stderr on a full device) must not keep the clean-up from happening
+           \* "nlfname": a newline in the file NAME (the name must not end up as project text); "unreadable": read() fails (EACCES / EIO)
+           \cup {S(i, "path", f, "none") : i \in {"badfname", "nlfname", "unreadable"}, f \in {"json", "csv"}}
+           \cup {[S(i, c, "json", "none") EXCEPT !.out = "stderrfull"] : i \in {"ok", "syntax", "empty", "missing"}, c \in {"path", "stdin"}}
+\* outside faults (C20): every situation here is replayed alone, and some of them among other processes
+FaultSits == {([fault |-> f] @@ S(i, c, "json", "none")) : i \in {"ok", "syntax"}, c \in {"path", "stdin"}, f \in {"sigint", "fsize"}}
 \* three concurrent processes (C20): a representative mix incl. failing ones
 ConcSits == {S("ok", "path", "json", "json"), S("ok", "stdin", "json", "none"), S("syntax", "path", "csv", "both"),
              S("empty", "stdin", "json", "none"), SO("ok", "path", "csv", "csv", "exists"),
              S("undecodable", "path", "json", "none"), S("ok", "stdin", "csv", "badname"), SO("ok", "path", "json", "none", "brokenpipe"),
-             S("ok", "path", "json", "escape"), S("partial", "stdin", "json", "subdir")}
+             S("ok", "path", "json", "escape"), S("partial", "stdin", "json", "subdir"),
+             ([fault |-> "sigint"] @@ S("ok", "path", "json", "none")), ([fault |-> "fsize"] @@ S("ok", "stdin", "json", "none"))}
 =======================================================================================
